@@ -66,6 +66,27 @@ pub struct K16 {
     /// (an outage of ten minutes and more)
     #[serde(default)]
     pub long_outage: Option<u32>,
+    /// volume: before the lines of the first session arrive, the server sends ("bytes", n) one
+    /// garbage line of 1 MiB n times (n x 1 MiB of feed), or ("lines", n) a block of 250 velocity
+    /// reports of one aircraft n times (250 n well-formed lines)
+    #[serde(default)]
+    pub volume: Option<(String, u32)>,
+}
+
+fn volume_block(kind: &str) -> Vec<u8> {
+    if kind == "bytes" {
+        let mut v = vec![b'g'; (1 << 20) - 2];
+        v.extend_from_slice(b";\n");
+        v
+    } else {
+        let addr = [0xa7, 0x16, 0x01];
+        let mut t = String::new();
+        for i in 0..250u32 {
+            let me = wire::me_velocity(1, 0, wire::sub_ground_speed(0, 1 + (i % 900) as u16, 0, 1 + (i * 7 % 900) as u16), 0, 0, 1 + (i % 300) as u16, 0, 3);
+            t.push_str(&format!("*{};\n", wire::hex(&wire::df17(5, addr, me))));
+        }
+        t.into_bytes()
+    }
 }
 
 fn stream_of(s: &S16) -> Vec<u8> {
@@ -113,7 +134,7 @@ pub fn compile(sc: &K16) -> KChild {
                     t += gap;
                     let end = cuts.get(i + 1).map(|c| c.0).unwrap_or(stream.len());
                     if end > *off {
-                        segments.push(KSegment { at_us: t, hex: wire::hex(&stream[*off..end]) });
+                        segments.push(KSegment { at_us: t, hex: wire::hex(&stream[*off..end]), repeat: 0 });
                     }
                 }
                 let close_at_us = s.close.as_ref().map(|c| t + c.after_us);
@@ -121,6 +142,19 @@ pub fn compile(sc: &K16) -> KChild {
                 t_total += close_at_us.unwrap_or(t) + 20_000;
                 connects.push(KConnect { outcome: KOutcome::Accept, segments, close_at_us, rst: s.close.as_ref().map(|c| c.rst).unwrap_or(false), eintr_reads: s.eintr_reads.clone() });
             }
+        }
+    }
+    let mut volume_iterations = 0u64;
+    if let Some((kind, n)) = &sc.volume {
+        if let Some(c) = connects.iter_mut().find(|c| c.outcome == KOutcome::Accept) {
+            let block = volume_block(kind);
+            // one main-loop iteration (>= 10 ms of virtual time) per line
+            volume_iterations = if kind == "bytes" { *n as u64 } else { 250 * *n as u64 };
+            for s in c.segments.iter_mut() {
+                s.at_us += 10_000;
+            }
+            c.segments.insert(0, KSegment { at_us: 10_000, hex: wire::hex(&block), repeat: *n });
+            t_total += volume_iterations * 10_500;
         }
     }
     let outage = match (sc.long_outage, connects.iter().position(|c| c.outcome == KOutcome::Accept)) {
@@ -147,7 +181,7 @@ pub fn compile(sc: &K16) -> KChild {
         (Some(what), Some(i)) if i + 1 < connects.len() => vec![(i + 1, "airports.csv".to_string(), what.clone())],
         _ => vec![],
     };
-    KChild { outage, tz: None, file_ops, rust_log: sc.rust_log.clone(), gpsd: None, ev_delay_us: vec![], connects, events, proc_delay_us: sc.proc_delay_us.clone(), coalesce: sc.coalesce.clone(), step_budget: 60_000 + 4 * outage.map(|o| o.1 as u64).unwrap_or(0) }
+    KChild { outage, tz: None, file_ops, rust_log: sc.rust_log.clone(), gpsd: None, ev_delay_us: vec![], connects, events, proc_delay_us: sc.proc_delay_us.clone(), coalesce: sc.coalesce.clone(), step_budget: 60_000 + 4 * outage.map(|o| o.1 as u64).unwrap_or(0) + if sc.volume.is_some() { 4 * volume_iterations + 1_200_000 } else { 0 } }
 }
 
 // ---------------------------------------------------------------------------- generation
@@ -343,6 +377,26 @@ pub fn generate(rng: &mut Rng, fault_free: bool) -> K16 {
     if rust_log.is_some() {
         faults.push("diagnostics_switched_on".into());
     }
+    if !fault_free && !for_1090 && rng.chance(0.003) {
+        // volume: 4 GiB and more of feed, or 65 000 and more lines, on one connection, then a few
+        // ordinary lines (whatever counts bytes or lines has run past 2^32 / 2^16 by then)
+        let kind = if rng.coin() { "bytes" } else { "lines" };
+        let n = if kind == "bytes" { 4_100 + rng.below(60) as u32 } else { 263 + rng.below(20) as u32 };
+        let mut lines: Vec<Vec<u8>> = vec![];
+        let mut splits: Vec<(usize, u64)> = vec![(0, 20_000)];
+        let mut off = 0usize;
+        for i in 0..3 + rng.usize_below(6) {
+            if i > 0 {
+                splits.push((off, *rng.pick(&[0u64, 1_000, 60_000])));
+            }
+            let l = lg.good_line(rng, false);
+            off += l.len();
+            lines.push(l);
+        }
+        faults.push(if kind == "bytes" { "volume_over_4_gib".into() } else { "volume_over_65535_lines".into() });
+        let sessions = vec![S16 { outcome: KOutcome::Accept, lines: lines.iter().map(|l| wire::hex(l)).collect(), splits, close: None, eintr_reads: vec![] }];
+        return K16 { app: app.into(), retry: false, limit_parsing: false, sessions, proc_delay_us: vec![], coalesce: vec![], f3_period_us: 1_000_000, faults, quiet_filter_s: None, rust_log: None, airports_spoiled: None, long_outage: None, volume: Some((kind.to_string(), n)) };
+    }
     if !fault_free && !for_1090 && rng.chance(0.05) {
         // quiet feed: a healthy connection that carries nothing for longer than the expiry time
         // (night, a receiver out of range of everything), then traffic again. Nobody disconnected:
@@ -371,7 +425,7 @@ pub fn generate(rng: &mut Rng, fault_free: bool) -> K16 {
         faults.push("quiet_longer_than_expiry_time".into());
         let eintr_reads = if rng.chance(0.3) { (0..1 + rng.below(4)).map(|_| rng.below(40)).collect() } else { vec![] };
         let sessions = vec![S16 { outcome: KOutcome::Accept, lines: lines.iter().map(|l| wire::hex(l)).collect(), splits, close: None, eintr_reads }];
-        return K16 { app: app.into(), retry, limit_parsing, sessions, proc_delay_us: vec![], coalesce: (0..16).map(|_| rng.chance(0.7)).collect(), f3_period_us: 250_000, faults, quiet_filter_s: Some(f), rust_log, airports_spoiled: None, long_outage: None };
+        return K16 { app: app.into(), retry, limit_parsing, sessions, proc_delay_us: vec![], coalesce: (0..16).map(|_| rng.chance(0.7)).collect(), f3_period_us: 250_000, faults, quiet_filter_s: Some(f), rust_log, airports_spoiled: None, long_outage: None, volume: None };
     }
     let nsess_accept = if retry { 1 + rng.usize_below(3) } else { 1 };
     let mut sessions = vec![];
@@ -535,7 +589,7 @@ pub fn generate(rng: &mut Rng, fault_free: bool) -> K16 {
         vec![]
     };
     let coalesce = if fault_free { vec![] } else { (0..16).map(|_| rng.chance(0.7)).collect() };
-    K16 { app: app.into(), retry, limit_parsing, sessions, proc_delay_us, coalesce, f3_period_us: *rng.pick(&[250_000u64, 400_000, 1_000_000]), faults, quiet_filter_s: None, rust_log, airports_spoiled, long_outage }
+    K16 { app: app.into(), retry, limit_parsing, sessions, proc_delay_us, coalesce, f3_period_us: *rng.pick(&[250_000u64, 400_000, 1_000_000]), faults, quiet_filter_s: None, rust_log, airports_spoiled, long_outage, volume: None }
 }
 
 // ---------------------------------------------------------------------------- reference
@@ -658,11 +712,40 @@ pub fn reference_lines(child: &KChild) -> (Vec<RefLine>, usize, usize) {
         if c.outcome != KOutcome::Accept {
             continue;
         }
-        let mut stream = vec![];
-        for s in &c.segments {
-            if c.close_at_us.map(|cl| s.at_us <= cl).unwrap_or(true) {
-                stream.extend_from_slice(&wire::unhex(&s.hex));
+        // a repeated segment (volume runs) is the first one of its connection and made of whole
+        // lines: its lines are classified once and laid out `repeat` times
+        let mut segs: Vec<&KSegment> = c.segments.iter().filter(|s| c.close_at_us.map(|cl| s.at_us <= cl).unwrap_or(true)).collect();
+        if let Some(first) = segs.first().copied().filter(|s| s.repeat > 1) {
+            let block = wire::unhex(&first.hex);
+            if block.last() != Some(&b'\n') {
+                simcore::harness_error("a repeated segment must end with a line terminator");
             }
+            let mut in_block: Vec<(usize, Vec<u8>)> = vec![];
+            let mut nlines = 0usize;
+            let mut start = 0;
+            for (i, &b) in block.iter().enumerate() {
+                if b == b'\n' {
+                    nlines += 1;
+                    if let Some(bytes) = well_formed_frame(&block[start..i]) {
+                        if catch_unwind(AssertUnwindSafe(|| Frame::from_bytes(&bytes).is_ok())).unwrap_or(false) {
+                            in_block.push((i + 1, bytes));
+                        }
+                    }
+                    start = i + 1;
+                }
+            }
+            for _ in 0..first.repeat {
+                for (e, bytes) in &in_block {
+                    out.push(RefLine { end: base + e, bytes: bytes.clone() });
+                }
+                complete += nlines;
+                base += block.len();
+            }
+            segs.remove(0);
+        }
+        let mut stream = vec![];
+        for s in segs {
+            stream.extend_from_slice(&wire::unhex(&s.hex));
         }
         let mut start = 0;
         for (i, &b) in stream.iter().enumerate() {
@@ -802,8 +885,12 @@ pub fn run_k16(sc: &K16) -> (KChild, Parsed) {
             args.push(super::c17::prepare_airports("valid", RX));
         }
     }
-    let run = run_child(&Spec { exe: &exe(if radar { "radar" } else { "1090" }), args, child: &child, tty: if radar { Some((120, 40)) } else { None }, wall_limit: Duration::from_secs(30) });
+    let run = run_child(&Spec { exe: &exe(if radar { "radar" } else { "1090" }), args, child: &child, tty: if radar { Some((120, 40)) } else { None }, wall_limit: Duration::from_secs(if sc.volume.is_some() { 600 } else { 30 }) });
     let mut vt = Vt::new();
+    if let Some((kind, n)) = &sc.volume {
+        // tens of thousands of frames: only the last few hundred are kept as screen copies
+        vt.keep_from = (if kind == "bytes" { *n as u64 } else { 250 * *n as u64 }).saturating_sub(300);
+    }
     if radar {
         vt.feed(&run.out);
     }
@@ -866,7 +953,9 @@ pub fn execute(sc: &K16) -> Outcome {
 
 fn leak_fault_name(f: &str) -> &'static str {
     // fault names are a closed set; map to 'static for the counters
-    const NAMES: [&str; 34] = [
+    const NAMES: [&str; 36] = [
+        "volume_over_4_gib",
+        "volume_over_65535_lines",
         "outage_of_tens_of_thousands_of_attempts",
         "airports_file_spoiled_while_disconnected",
         "connect_fails_otherwise",
@@ -1154,7 +1243,8 @@ expected final table:
 }
 
 fn first_session_len(sc: &K16) -> usize {
-    sc.sessions.iter().find(|s| s.outcome == KOutcome::Accept).map(|s| stream_of(s).len()).unwrap_or(0)
+    let volume = sc.volume.as_ref().map(|(kind, n)| volume_block(kind).len() * *n as usize).unwrap_or(0);
+    volume + sc.sessions.iter().find(|s| s.outcome == KOutcome::Accept).map(|s| stream_of(s).len()).unwrap_or(0)
 }
 
 fn dump_rows(rows: &[Row]) -> String {
@@ -1274,6 +1364,18 @@ pub fn shrink(sc: &K16) -> Vec<K16> {
         let mut x = sc.clone();
         x.airports_spoiled = None;
         c.push(x);
+    }
+    if let Some((kind, n)) = &sc.volume {
+        let mut x = sc.clone();
+        x.volume = None;
+        c.push(x);
+        for m in [n / 2, n - n / 8, n - 1] {
+            if m >= 1 && m < *n {
+                let mut x = sc.clone();
+                x.volume = Some((kind.clone(), m));
+                c.push(x);
+            }
+        }
     }
     if let Some(n) = sc.long_outage {
         let mut x = sc.clone();
